@@ -66,7 +66,7 @@ func VF_C20_select_bytes() {
 	n := 1 + vfChoice("databases", 3)
 	m := hNewManager(n)
 	ctx := context.Background()
-	arg := vfBytes("arg", 0, 2)
+	arg := vfBytes("arg", 0, 3)
 	r := m.ExecCommand(ctx, [][]byte{bs("SELECT"), arg}, nil)
 	v, err := strconv.Atoi(string(arg))
 	if err == nil && v >= 0 && v < n {
